@@ -22,6 +22,25 @@ fn patterns() -> Vec<(&'static str, Vec<(&'static str, &'static str)>)> {
         ("abaXba", vec![("a", "c0"), ("b", "c0"), ("a", "c0"), ("a", "c1"), ("b", "c0"), ("a", "c0")]),
         ("aaXaa", vec![("a", "c0"), ("a", "c0"), ("a", "c1"), ("a", "c0"), ("a", "c0")]),
         ("abYab", vec![("a", "c0"), ("b", "c0"), ("b", "c1"), ("a", "c0"), ("b", "c0")]),
+        // long buckets: one context holds more events of two interleaved types than any small-slice
+        // shortcut of a sort or merge covers (run only with the fixed placements of `long_placements`)
+        ("long25", (0..25).map(|i| if i == 12 { ("a", "c1") } else if i % 2 == 0 { ("a", "c0") } else { ("b", "c0") }).collect()),
+        ("long41", (0..41).map(|i| if i % 10 == 9 { ("b", "c1") } else if i % 3 == 0 { ("b", "c0") } else { ("a", "c0") }).collect()),
+    ]
+}
+
+const N_SHORT: usize = 3;
+
+/// layouts for the long patterns: memory only, one segment, two segments, two segments compacted,
+/// one segment and a restart
+fn long_placements(n: usize) -> Vec<Vec<(usize, L)>> {
+    let (mid, last) = (n / 2, n - 1);
+    vec![
+        vec![],
+        vec![(last, L::Flush)],
+        vec![(mid, L::Flush), (last, L::Flush)],
+        vec![(mid, L::Flush), (last - 1, L::Flush), (last, L::Compact)],
+        vec![(last - 1, L::Flush), (last, L::Restart)],
     ]
 }
 
@@ -150,11 +169,19 @@ pub fn check(tier: &str) -> i32 {
     let j = if tier == "quick" { 2 } else { 3 };
     let mut cases = Vec::new();
     for (ci, cfg) in cfgs.iter().enumerate() {
-        for (pi, (_, pat)) in patterns().iter().enumerate() {
+        for (pi, (_, pat)) in patterns().iter().enumerate().take(N_SHORT) {
             if tier == "quick" && pi == 2 && ci == 1 {
                 continue;
             }
             for pl in placements(pat.len(), j) {
+                cases.push(Case { cfg: cfg.clone(), pat: pi, place: pl });
+            }
+        }
+    }
+    // long buckets, with memtables large enough to hold them
+    for cfg in [SysConfig { fill_factor: 16, event_per_zone: 4, ..Default::default() }, SysConfig { fill_factor: 64, event_per_zone: 1, segments_per_merge: 2, ..Default::default() }] {
+        for (pi, (_, pat)) in patterns().iter().enumerate().skip(N_SHORT) {
+            for pl in long_placements(pat.len()) {
                 cases.push(Case { cfg: cfg.clone(), pat: pi, place: pl });
             }
         }
